@@ -290,12 +290,30 @@ Qed.
 (* ========================================================================================= *)
 (* Quaternion(dcm=M): whatever comes back is a unit quaternion, only ValueError is raised    *)
 (* ========================================================================================= *)
+(* walk the generated decision tree without expanding its lets: every let becomes a local definition, every
+   decision a case split; `leaf` closes  <leaf outcome> = <outcome> -> <claim> *)
+Ltac walk leaf :=
+  lazymatch goal with
+  | |- (let x := ?v in @?b x) = ?r -> ?G =>
+      let y := fresh "t" in pose (y := v); change (b y = r -> G); cbv beta; walk leaf
+  | |- (if ?c then _ else _) = _ -> _ => destruct c; walk leaf
+  | |- _ => leaf
+  end.
+Ltac expose_leaf :=
+  repeat match goal with |- context [?x * ?x] => is_var x; unfold x end;
+  repeat match goal with |- context [_ / ?n] => is_var n; unfold n in * end.
+Ltac leaf_unit_w :=
+  let E := fresh "E" in
+  intros E; first [discriminate E | injection E as <-;
+  cbv [unit4l qnorm2 e nth length]; split; [reflexivity|]; expose_leaf;
+  first [ apply div4_unit; lra | apply div3_unit; lra ]].
+
 Lemma Q_dcm_returns_unit m00 m01 m02 m10 m11 m12 m20 m21 m22 l :
   C11_Q_dcm_R m00 m01 m02 m10 m11 m12 m20 m21 m22 = Val l -> unit4l l.
-Proof. unfold C11_Q_dcm_R. cbv zeta. repeat destr_dec; leaf_unit. Qed.
+Proof. unfold C11_Q_dcm_R. walk leaf_unit_w. Qed.
 Lemma Q_dcm_raises_VE m00 m01 m02 m10 m11 m12 m20 m21 m22 ex :
   C11_Q_dcm_R m00 m01 m02 m10 m11 m12 m20 m21 m22 = Raise ex -> ex = ValueError.
-Proof. unfold C11_Q_dcm_R. cbv zeta. repeat destr_dec; only_VE. Qed.
+Proof. unfold C11_Q_dcm_R. walk only_VE. Qed.
 
 (* non-vacuity *)
 Example norm_nonvacuous : nz4 1 2 3 4 /\ nz3 1 2 3 /\ 0 <= 1/3 <= 1 /\
